@@ -161,9 +161,6 @@ fn c16_recovered(prop: &str, seed: u64, case: &Case, rep: &mut RunReport) {
     use crate::damage::{aimed_overwrite, apply_damage, base_image, frame_payload_damage, judge};
     use crate::fault::DamageOp;
     let Some((d, image, parsed)) = base_image(case) else { return };
-    if !parsed.problems.is_empty() {
-        return;
-    }
     let mut rng = crate::prng::Rng::new(crate::prng::mix(&[seed, 0xC16]));
     let policy = d.world.policy;
     for k in 0..8 {
